@@ -326,8 +326,26 @@ func c01Base() []c01Method {
 	}
 }
 
-// c01Req sends one request; returns "status,method,fields" (no spaces)
+// req: the request on a mux that has served other requests before -- the same path under other verbs, and the request
+// itself once already: what a mux remembers about earlier requests must not change the answer
 func (cm *c01Mux) req(verb, path string) string {
+	if cm.h == nil {
+		return "0,-,-"
+	}
+	for _, v := range []string{"POST", "GET", "LIST"} {
+		if v != verb {
+			cm.req1(v, path)
+		}
+	}
+	first := cm.req1(verb, path)
+	if again := cm.req1(verb, path); again != first {
+		return "unstable," + strings.ReplaceAll(first, ",", "/") + "," + strings.ReplaceAll(again, ",", "/")
+	}
+	return first
+}
+
+// req1 sends one request; returns "status,method,fields" (no spaces)
+func (cm *c01Mux) req1(verb, path string) string {
 	if cm.h == nil {
 		return "0,-,-"
 	}
